@@ -325,6 +325,8 @@ class Theory:
 
         if seq.rule == "":
             # Empty line in the proof
+            if seq.th is not None:
+                raise CheckProofException("empty line cannot have a statement")
             return None
 
         if seq.rule == "sorry":
